@@ -368,11 +368,16 @@ impl Logger for RingLogger {
 		g.push_back(line);
 	}
 }
-/// The harness always passes complete routes; the router is never asked in the scenarios we run.
-pub struct NoRouter;
+/// The harness passes complete routes. Sends that go through the router (spontaneous payments) find the route the
+/// harness left here right before the call; otherwise the router knows none (so nothing is ever retried over a
+/// route the harness did not choose).
+#[derive(Default)]
+pub struct NoRouter {
+	pub scripted: Mutex<VecDeque<Route>>,
+}
 impl Router for NoRouter {
 	fn find_route(&self, _: &PublicKey, _: &RouteParameters, _: Option<&[&ChannelDetails]>, _: InFlightHtlcs) -> Result<Route, &'static str> {
-		Err("scripted routes only")
+		self.scripted.lock().unwrap().pop_front().ok_or("scripted routes only")
 	}
 	fn create_blinded_payment_paths<T: secp256k1::Signing + secp256k1::Verification>(&self, _: PublicKey, _: ReceiveAuthKey, _: Vec<ChannelDetails>, _: ReceiveTlvs, _: Option<u64>, _: &Secp256k1<T>) -> Result<Vec<BlindedPaymentPath>, ()> {
 		Err(())
